@@ -34,7 +34,8 @@ def main():
                 "names": "one symbolic character each (equality is all the step looks at)", "steps": "one"}
     C.assumptions += M.NATIVE_NOTES + [
         "FxHashMap/FxHashSet are modelled as association lists with pairwise-distinct keys",
-        "checker side (infer_namespace_access), unqualified imports and cyclic loading are outside the claim",
+        "checker side (infer_namespace_access) and cyclic loading are outside the claim; unqualified imports are covered at "
+        "the copy step (insert_imported_namespace)",
     ]
 
     def replay(_m):
@@ -132,6 +133,50 @@ def main():
                 and items[0] is v["sentinel"]
             C.prove(f"path{i}:error-restores-receiver", r.pc, okr, site="namespace-access/restore",
                     what="a refused namespace access does not restore exactly the receiver", replay=replay)
+    # ---- unqualified import: only exported symbols are copied into the importing namespace
+    def run_unq(ctx):
+        nv = ctx.choose([True, True, True])
+        ne = ctx.choose([True, True, True])
+        if nv == 2:
+            ctx.assume(k[0][1] != k[1][1])
+        if ne == 2:
+            ctx.assume(e[0][1] != e[1][1])
+        vals = [M.mk_value(Opaque(f"nsval{i}")) for i in range(nv)]
+        imported = Struct("NamespaceInfo", {"values": Map([(k[i][0], vals[i]) for i in range(nv)]),
+                                            "exported_syms": Map([(e[i][0], UNIT) for i in range(ne)]),
+                                            "abs_path": Opaque("abs_path")}, partial=True)
+        current = Struct("NamespaceInfo", {"values": Map([]), "exported_syms": Map([]), "abs_path": Opaque("cur")}, partial=True)
+        I = M.mk_interp(P, ctx)
+        syms = I.call_user(P.fns["insert_imported_namespace"], [NONE, Rc(current), Rc(imported)])
+        return {"I": I, "current": current, "vals": vals, "nv": nv, "ne": ne}
+    res = explore(run_unq)
+    C.note_paths(res)
+    n_unq = 0
+    for i, r in enumerate(res):
+        if r.kind == "panic":
+            C.prove(f"unqualified/path{i}:no-panic", r.pc, False, site="unqualified-import/panic", what=f"insert_imported_namespace panics: {r.value}")
+            continue
+        if r.kind != "ok":
+            continue
+        n_unq += 1
+        v = r.value
+        C.note_interp(v["I"])
+        copied = v["current"].fields["values"].entries
+        # every copied entry is one of the imported values and its name is exported
+        for (ck, cv) in copied:
+            j = [jj for jj, x in enumerate(v["vals"]) if M.value_ident(x) == M.value_ident(cv)]
+            name_c = ck.fields["text"].chars()[0].z()
+            exported = z3.Or(*[e[t][1] == name_c for t in range(v["ne"])]) if v["ne"] else z3.BoolVal(False)
+            okc = z3.And(exported, k[j[0]][1] == name_c) if j else z3.BoolVal(False)
+            C.prove(f"unqualified/path{i}:copied-is-public", r.pc, okc, site="unqualified-import/private-copied",
+                    what="an unqualified import copies a definition that is not exported (or under another name)", replay=replay)
+        # every exported imported entry is copied
+        for jj in range(v["nv"]):
+            exported = z3.Or(*[e[t][1] == k[jj][1] for t in range(v["ne"])]) if v["ne"] else z3.BoolVal(False)
+            present = z3.BoolVal(any(M.value_ident(cv) == M.value_ident(v["vals"][jj]) for (_, cv) in copied))
+            C.prove(f"unqualified/path{i}/v{jj}:public-is-copied", r.pc, z3.Implies(exported, present), site="unqualified-import/public-missing",
+                    what="an unqualified import does not copy an exported definition", replay=replay)
+    C.reach("unqualified-import-paths", [z3.BoolVal(n_unq > 0)])
     C.reach("value-path-exists", [z3.BoolVal(n_ok > 0)])
     C.reach("error-path-exists", [z3.BoolVal(n_err > 0)])
     rep = replay(None)
